@@ -481,11 +481,8 @@ def judge_setup(obs, prev, context):
     before = {r[0]: r[1] for r in obs['rows_before']}
     completed = set(obs['completed'])
     if [n for n, _ in obs['files']] != [n for n, _ in obs['files_before']]:
-        gone = sorted({n for n, _ in obs['files_before']} - {n for n, _ in obs['files']})
-        new = sorted({n for n, _ in obs['files']} - {n for n, _ in obs['files_before']})
-        out.append(({'kind': 'setup-changed-directory', 'removed': [blob_class(h) for h in gone],
-                     'created': [blob_class(h) for h in new], **context},
-                    f'setup() itself removed {list(map(short, gone))} / created {list(map(short, new))}'))
+        # not forbidden by the statement (the claims below are judged on the directory as setup() left it)
+        out.append(({'kind': 'interp:setup_itself_changed_the_blob_directory'}, ''))
     for h in sorted(completed - files):
         out.append(({'kind': 'completed-without-file', 'blob': blob_class(h), 'row_before': before.get(h), **context},
                     f'after setup() {short(h)} is reported completed but has no file in the blob directory'))
@@ -627,6 +624,8 @@ def play(history, extend=True, judge_from=None):
             first = w.last_setup
             w.step((('restart',), (), False))
             ex.findings += judge_setup(w.last_setup, first, ctx)
+        ex.facts += [sig['kind'] for sig, _ in ex.findings if sig['kind'].startswith('interp:')]
+        ex.findings = [(sig, what) for sig, what in ex.findings if not sig['kind'].startswith('interp:')]
         ex.log = list(w.log)
         ex.setups = w.setups
         ex.jobs = w.jobs_run
@@ -853,6 +852,9 @@ def side_sweep(item, res):
                     continue
                 for sig, what in judge_setup(first, None, {'after': 'single-wrong-name', 'how': 'ran'}) + \
                         judge_setup(w.last_setup, first, {'after': 'single-wrong-name', 'how': 'ran'}):
+                    if sig['kind'].startswith('interp:'):
+                        res.tally('interpretation_only:' + sig['kind'][7:])
+                        continue
                     res.violation(sig, what + f' [single wrongly named file {name[:10]!r} len {len(name)}]',
                                   {'wrong_name': name, 'populated': populated, 'seed': SEED})
             finally:
